@@ -47,7 +47,7 @@ META = {
                   "leave declension outputs unchanged; a stand-alone terminal (no parent); current language = terminal's "
                   "language (C15 covers the rest); warning texts not modelled (a 3 % sample runs the real warn()).",
     "rule": "N x {n absent,s,p} x {g absent,m,f}; A x g x n x f (fr 27, en 12 combinations); Adv x f; D x g5 x n4 x pe4 x "
-            "own4; Pro x g5 x n4 x pe4 x own4 x tn3 x c6; non-trivial = realized text differs from the lemma or a warning "
+            "own4; Pro x g5 x n4 x pe4 x own4 x tn3 x c6; D and Pro again with pe spelled '1','2','3' (54 / 324 combinations); non-trivial = realized text differs from the lemma or a warning "
             "was raised, counted once per (language, type, table, combination, answer)",
     "assumptions": ["A_noelision: doElision and the formatting steps of doFormat are the identity on the token lists "
                     "decline() returns for a stand-alone terminal without formatting options",
@@ -124,6 +124,10 @@ def build_combos():
             ("ow", [ABS, "s", "p", "x"])]
     C["D"] = product(*base)
     C["Pro"] = product(*(base + [("tn", [ABS, "", "refl"]), ("c", [ABS, "nom", "acc", "dat", "refl", "gen"])]))
+    # persons spelled as strings ('1','2','3' are documented valid values of .pe())
+    sbase = [("g", [ABS, "m", "f"]), ("n", [ABS, "s", "p"]), ("pe", ["1", "2", "3"]), ("ow", [ABS, "s"])]
+    C["D-str"] = product(*sbase)
+    C["Pro-str"] = product(*(sbase + [("tn", [ABS, ""]), ("c", [ABS, "nom", "acc"])]))
     return C
 
 
@@ -373,6 +377,12 @@ def signature(lang, pos, lemma, combo, kind):
 
 # --------------------------------------------------------------------------------------------- jobs
 
+def crash_signature(lang, pos, lemma, combo, exc):
+    """crash:<Type>|<lang>|<pos>|<tab>|<feats>; values kept with their Python type ("2" vs 2), lemma dropped"""
+    base = signature(lang, pos, lemma, combo, "x").split(":", 4)
+    return "crash:%s|%s|%s|%s|%s" % (exc, lang, pos, base[3], base[4])
+
+
 def make_line(job):
     lang, pos, lemma, ckey, extra = job[:5]
     combos = extra if ckey is None else COMBOS[ckey]
@@ -410,6 +420,14 @@ def run_chunk(args):
                     res["diffs_more"] = res.get("diffs_more", 0) + 1
             if "err" in a:
                 res["errs"] += 1
+                if "err" not in ma:
+                    # declension never raises on a request that has a form (or a bracketed lemma): an exception of the
+                    # real code where the model answers is a failing input of its own, in every stream
+                    res["fails"].append((crash_signature(lang, pos, lemma, combo, a["err"]),
+                                         {"op": "decl", "lang": lang, "pos": pos, "lemma": lemma, "combos": [combo]},
+                                         "the implementation raised %s; the model (= the tables' prescription) answers %r%s" % (
+                                             a["err"], ma.get("text"), " with a warning" if ma.get("w") else "")))
+                    continue
             else:
                 if a["w"]:
                     res["warned"] += 1
@@ -424,8 +442,8 @@ def run_chunk(args):
                     continue
                 res["oracle_checked"] += 1
                 inp = {"op": "decl", "lang": lang, "pos": pos, "lemma": lemma, "combos": [combo]}
-                if "err" in a:
-                    res["fails"].append((signature(lang, pos, lemma, combo, "crash-" + a["err"]), inp,
+                if "err" in a:       # (the model raises too: its crash and the implementation's agree, the property does not)
+                    res["fails"].append((crash_signature(lang, pos, lemma, combo, a["err"]), inp,
                                          "the implementation raised %s; the property prescribes %r" % (a["err"], sp["text"])))
                 elif a["text"] != sp["text"]:
                     kind = "missing-veto-" + sp["veto"] if "veto" in sp else "wrong-form"
@@ -688,11 +706,18 @@ def gen_jobs(ctx, full):
                 rest = [c for c in COMBOS[ck] if not small(c)]
                 for l in chosen:
                     jobs.append((lang, pos, l, None, core_ + [c for c in rest if rng.random() < 0.05], True))
-                scope["%s,%s" % (lang, pos)] = "%d lemmas x (%d + 5%% of %d) combinations" % (len(chosen), len(core_), len(rest))
+                for l in chosen:
+                    jobs.append((lang, pos, l, "Pro-str", None, True))
+                scope["%s,%s" % (lang, pos)] = "%d lemmas x (%d + 5%% of %d) combinations + %d with pe as a string" % (
+                    len(chosen), len(core_), len(rest), len(COMBOS["Pro-str"]))
                 continue
             for l in chosen:
                 jobs.append((lang, pos, l, ck, None, True))
             scope["%s,%s" % (lang, pos)] = "%d lemmas x %d combinations" % (len(chosen), len(COMBOS[ck]))
+            if pos in ("D", "Pro"):
+                for l in chosen:
+                    jobs.append((lang, pos, l, pos + "-str", None, True))
+                scope["%s,%s" % (lang, pos)] += " + %d with pe as a string" % len(COMBOS[pos + "-str"])
     return jobs, scope
 
 
